@@ -37,7 +37,7 @@ CONSTANTS
 
 VARIABLES
   n,      \* number of shards (>= 1)
-  obs,    \* hash-route observations so far: set of [h |-> limbs, i |-> index]
+  obs,    \* hash-route observations so far: [h |-> limbs, i |-> index], sorted by h
   kidx,   \* routing memory: [op, k] -> index returned before
   m,      \* the unsharded map: key -> value
   sh,     \* sharded model: sequence of n maps
@@ -62,10 +62,10 @@ RouteOK(a, r) ==
   /\ RId(a) \in DOMAIN kidx => kidx[RId(a)] = r
   /\ IF ByMod(a)
      THEN ~a.neg => r = LimbsMod(a.k.b, LimbBase, n)
-     ELSE HashOK(obs, a.h, r)
+     ELSE HashOKSeq(obs, a.h, r)
 
 RouteDo(a, r) ==
-  /\ obs'  = IF ByMod(a) THEN obs ELSE obs \cup {[h |-> a.h, i |-> r]}
+  /\ obs'  = IF ByMod(a) THEN obs ELSE InsertObs(obs, a.h, r)
   /\ kidx' = Ext(kidx, RId(a), r)
   /\ UNCHANGED <<n, m, sh, rt>>
   /\ last' = a
@@ -113,7 +113,7 @@ Step(a) == Do(a) /\ last' = a
 MapStep(a) == MapDo(a) /\ UNCHANGED <<n, obs, kidx, sh, rt>> /\ last' = a
 
 InitWith(c) ==
-  /\ n = c /\ obs = {} /\ kidx = <<>>
+  /\ n = c /\ obs = <<>> /\ kidx = <<>>
   /\ m = <<>> /\ sh = [i \in 1..c |-> <<>>] /\ rt = <<>>
   /\ last = [op |-> "init", n |-> c]
 
@@ -155,4 +155,62 @@ OneHome ==
 ReadOnly == [][last'.op \in {"get", "exist"} => UNCHANGED <<m, sh>>]_allvars
 
 View == vars
+
+---------------------------------------------------------------------------
+(* Bounded instance for exhaustive checking of the routing CONTRACT itself: *)
+(* an arbitrary router answers arbitrary questions in arbitrary order and   *)
+(* only answers the contract accepts are recorded.  Shows that the          *)
+(* contract (neighbour test on the sorted observations) is exactly          *)
+(* "some partition of the hash space into n consecutive intervals explains  *)
+(* every answer so far": never weaker (Explainable), never stronger         *)
+(* (Complete) - so trace validation neither misses a hole / overlap nor     *)
+(* flags a router with different boundaries.                                *)
+CONSTANTS HashVals,   \* hash values 0..LimbBase^2-1 used as questions
+          IntKeys,    \* non-negative integer keys for the modulo route
+          NegKeys     \* magnitudes of negative integer keys (cfg files take no negative numbers)
+
+L2(v) == <<v \div LimbBase, v % LimbBase>>                  \* 2 limbs
+Pat(v) == IF v < 0 THEN v + LimbBase * LimbBase ELSE v      \* two's complement pattern
+SearchA(v)   == [op |-> "search", k |-> [t |-> "hash", b |-> L2(v)], neg |-> FALSE, h |-> L2(v)]
+(* three string keys, two of which share a hash value *)
+XKeys == {1, 2, 3}
+XHashOf(k) == k \div 2 + 1
+XhashA(k)    == [op |-> "xhash", k |-> [t |-> "str", b |-> <<k>>], neg |-> FALSE, h |-> L2(XHashOf(k))]
+ModA(v)      == [op |-> "simple", k |-> [t |-> "i64", b |-> L2(Pat(v))], neg |-> v < 0, h |-> L2(Pat(v))]
+RouteActs == {SearchA(v) : v \in HashVals} \cup {XhashA(k) : k \in XKeys} \cup {ModA(v) : v \in IntKeys} \cup {ModA(-v) : v \in NegKeys}
+Answers   == (-1)..n          \* includes both kinds of out-of-range index
+
+RNext == \E a \in RouteActs, r \in Answers : RouteStep(a, r)
+RSpec == Init /\ [][RNext]_allvars
+
+(* a partition of 0..MaxHash into n consecutive (possibly empty) intervals  *)
+(* is given by n-1 ascending cut points; hash v belongs to the shard whose  *)
+(* number is the count of cuts <= v                                         *)
+MaxHash == LimbBase * LimbBase - 1
+Cuts == {c \in [1..(n - 1) -> 0..(MaxHash + 1)] : \A j \in 1..(n - 2) : c[j] <= c[j + 1]}
+ShardOf(c, v) == Cardinality({j \in 1..(n - 1) : c[j] <= v})
+Explains(c, O) == \A o \in O : o.i = ShardOf(c, LimbsVal(o.h, LimbBase))
+
+ObsSorted == \A j \in 1..(Len(obs) - 1) : LimbCmp(obs[j].h, obs[j + 1].h) = -1
+Explainable == \E c \in Cuts : Explains(c, SeqRange(obs))
+(* whatever some partition could still answer is accepted *)
+Complete ==
+  \A a \in RouteActs : ~ByMod(a) =>
+    \A r \in 0..(n - 1) :
+      ( /\ RId(a) \in DOMAIN kidx => kidx[RId(a)] = r
+        /\ \E c \in Cuts : Explains(c, SeqRange(obs) \cup {[h |-> a.h, i |-> r]}) )
+      => RouteOK(a, r)
+(* the neighbour test equals the pairwise reference formulation *)
+FastIsRef ==
+  \A a \in RouteActs, r \in Answers :
+    HashOKSeq(obs, a.h, r) = HashOK(SeqRange(obs), a.h, r)
+(* what the memory holds: usable indices; k mod n for non-negative integers; *)
+(* keys with one hash share one shard                                       *)
+MemoryOK ==
+  /\ \A id \in DOMAIN kidx : InRange(n, kidx[id])
+  /\ \A v \in IntKeys : (v >= 0 /\ RId(ModA(v)) \in DOMAIN kidx) => kidx[RId(ModA(v))] = v % n
+  /\ \A k1, k2 \in XKeys :
+       (XHashOf(k1) = XHashOf(k2) /\ RId(XhashA(k1)) \in DOMAIN kidx /\ RId(XhashA(k2)) \in DOMAIN kidx)
+         => kidx[RId(XhashA(k1))] = kidx[RId(XhashA(k2))]
+RView == <<n, obs, kidx>>
 =============================================================================
